@@ -442,6 +442,7 @@ func (e *Exec) builtin(b *ssa.Builtin, c *ssa.CallCommon, args []Value, guard st
 		case isSlice(x.T):
 			return intVal(x.S[1])
 		case isMap(x.T):
+			e.mapLenFacts(s, x)
 			return intVal(e.mapLen(s, x))
 		case isString(x.T):
 			return intVal("(strlen " + x.S[0] + ")")
